@@ -14,7 +14,7 @@ VERIF = '/verif'
 
 def run(rep: Report, kind: str, n: int, seed: int, *, timeout: int = 1500, asan: bool = False, label: str = '', only_crashes: bool = False) -> None:
     env = dict(os.environ)
-    env['PYTHONPATH'] = '/verif:/repo'
+    env['PYTHONPATH'] = '/verif:' + os.environ.get('VERIF_REPO', '/repo')
     env['PYTHONDONTWRITEBYTECODE'] = '1'
     if asan:
         env['VERIF_NATIVE_ASAN'] = '1'
